@@ -113,6 +113,9 @@ def digit_templates(tier, prop="C03"):
         for t in DIGIT_TEMPLATES[:5]:
             out.append(t % ("D" * k))
     out.append(DIGIT_TEMPLATES[5] % ("D" * 5, "D" * 5, "D" * 5))
+    # both sides of 2^64 and of 2^32 with only the last four digits symbolic (cheap enough for the quick tier; all 20 / 21 digits
+    # symbolic cost a minute per template and stay in the thorough tier)
+    out += ["{:1844674407370955DDDD}", "{1844674407370955DDDD}", "{:.1844674407370955DDDD$}", "{:99999999999999999DDDD}", "{:429496DDDD}", "{0:429496DDDD$}"]
     if tier == "thorough":
         out += ["{%s}{}" % ("D" * 5), "{}{:%s$}" % ("D" * 5), "{:%s.%s}" % ("D" * 5, "D" * 5), "{:0%s}" % ("D" * 5), "{:#%s$}" % ("D" * 6)]
     return out
